@@ -100,7 +100,7 @@ func Start(property, level string) *Run {
 	}
 	if *budget == 0 {
 		if r.Tier == Quick {
-			*budget = 4 * time.Minute
+			*budget = 8 * time.Minute
 		} else {
 			*budget = 40 * time.Minute
 		}
